@@ -48,6 +48,7 @@ def run(ctx):
     producer_pairing(ctx)
     read_dets(ctx)
     parity_rule(ctx)
+    inputs_not_modified(ctx)
     s = Sib(ctx)
     s.multislater_restricted_vs_unrestricted()
     s.multislater_reference_pairing()
@@ -55,6 +56,24 @@ def run(ctx):
     # one-body normal-ordering term its builder stores is typed with the index kinds of C15
     from . import c15 as _c15
     _c15.builders(ctx, only_auto=True)
+
+
+def inputs_not_modified(ctx):
+    """MUT-1.  The determinant list handed to get_excitations (and what get_fci_state / read_dets are given) stays the
+    caller's: the same dictionary is converted again with another cut-off, or kept for reference.  A store into it --
+    `state[d] *= parity(...)` -- changes the meaning of the list for every later use."""
+    from ..rules.pitfalls import param_mutations
+    for q in ("get_excitations", "get_fci_state", "read_dets"):
+        try:
+            fi = ctx.p.func(f"{PI}.{q}")
+        except AnalysisError:
+            continue
+        if fi.node is None or fi.is_jit:
+            continue
+        muts = param_mutations(fi.node, methods=True)
+        ctx.ob("MUT-1", f"{q}: the objects it is handed are not modified in place", not muts,
+               "; ".join(f"line {ln}: {txt} writes into the caller's '{prm}'" for ln, txt, prm in muts[:3]) or
+               "no store into a parameter", fi)
 
 
 def _assign_targets(fn_node, name: str):
